@@ -257,7 +257,16 @@ func genC07(ctx *fw.Ctx) []fw.Case {
 func c07Batch(r *fw.Rec, idx int) {
 	rng := r.Ctx().Rand(fmt.Sprintf("c07/%d", idx))
 	named := &mgen.Type{K: mgen.KNamed, Name: "S"}
-	named.Body = mgen.Struct(false, mgen.Int(32), mgen.Ptr(named, 0), mgen.Arr(3, mgen.Struct(false, mgen.Int(8), mgen.Int(16))))
+	// the body behind the name differs from batch to batch of one process: what a
+	// gep through %S yields depends on the module the name is defined in
+	switch idx % 3 {
+	case 0:
+		named.Body = mgen.Struct(false, mgen.Int(32), mgen.Ptr(named, 0), mgen.Arr(3, mgen.Struct(false, mgen.Int(8), mgen.Int(16))))
+	case 1:
+		named.Body = mgen.Struct(false, mgen.Int(64), mgen.Arr(2, mgen.Int(8)), mgen.Arr(3, mgen.Struct(false, mgen.Int(16), mgen.Ptr(named, 0))))
+	default:
+		named.Body = mgen.Struct(true, mgen.Arr(2, mgen.Int(16)), mgen.Float("double"), mgen.Arr(3, mgen.Struct(true, mgen.Int(64), mgen.Int(8))))
+	}
 	g := &c07Gen{rng: rng, named: named}
 	srcs := g.srcTypes()
 	var sb strings.Builder
